@@ -15,6 +15,7 @@ import FFVerif.Props.C16
 import FFVerif.Model.Sampler
 import FFVerif.Model.Seed
 import FFVerif.Model.Subset
+import FFVerif.Model.Sorm
 import FFVerif.Model.Miner
 import FFVerif.Props.C19
 import FFVerif.Props.C20
@@ -145,6 +146,11 @@ def handle (toks : List String) : Option String :=
     let lv := Subset.run nc ms (ms + 1) g0 orc
     some ("|".intercalate (lv.map (fun l =>
       showList l.values ++ ":" ++ toString l.threshold ++ ":" ++ (match l.prob with | some k => toString k | none => "p0"))))
+  | "c12" :: args => do
+    let a ← parseFloats args
+    if a.size < 4 then none else
+    let ks := (a.toList.drop 4)
+    some s!"{(Sorm.breitung a[0]! a[1]! ks).toBits.toNat} {(Sorm.hrack a[1]! a[2]! a[3]! ks).toBits.toNat}"
   | "c09lin" :: args => do
     let a ← parseFloats args
     if a.size = 5 then some s!"{(C09.linearResidual a[0]! a[1]! a[2]! a[3]! a[4]!).toBits.toNat}" else none
